@@ -14,13 +14,14 @@ package main
 
 import (
 	"bytes"
-	"fmt"
 	"context"
 	"encoding/binary"
 	"encoding/json"
+	"fmt"
 	"io"
 	"os"
 	"path/filepath"
+	"runtime"
 	"sort"
 	"strconv"
 	"time"
@@ -63,12 +64,12 @@ const B = gridfs.UploadBufferSize
 
 type env struct {
 	unclaimed bool // the last upload is finished but was not claimed
-	client lungo.IClient
-	db     lungo.IDatabase
-	trace  *util.NDJSON
-	g      *gen.G
-	ctx    context.Context
-	n      int
+	client    lungo.IClient
+	db        lungo.IDatabase
+	trace     *util.NDJSON
+	g         *gen.G
+	ctx       context.Context
+	n         int
 }
 
 type chunkRow struct {
@@ -370,6 +371,16 @@ func main() {
 	}
 	defer engine.Close()
 	e := &env{client: client, db: client.Database("g"), trace: util.CreateNDJSON(filepath.Join(dir, "trace.ndjson")), g: gen.New(seed), ctx: ctx}
+	// a GridFS call that panics is recorded as what it is (the cases before it are still judged)
+	defer func() {
+		if r := recover(); r != nil {
+			buf := make([]byte, 4096)
+			buf = buf[:runtime.Stack(buf, false)]
+			finding("gridfs", fmt.Sprintf("a GridFS call panicked: %v", r), V{"stack": string(buf)})
+			e.trace.Close()
+			out.Encode(V{"kind": "summary", "cases": e.trace.N, "findings": findings})
+		}
+	}()
 	chunkSizes := []int{1, 2, 3, 4, 5, 7, 16, 64, 255, 1000, 4096}
 	for i := 0; i < small; i++ {
 		C := chunkSizes[e.g.N(len(chunkSizes))]
